@@ -4,7 +4,8 @@
    METAWM <program tokens as for METAW> ORACLE <oracle tokens>
      builds the [file_meta] the writer holds at E57Writer::finalize for this program (W) and the metadata
      the caller asked for (M; differs from W only in incomplete DEFAULT limits, see [build]) and prints
-        <hex of gen_root W | eInvalid | P> | <dump of M, format of ext_xg.rs dump_meta> | <dump of tree_of M>
+        <hex of gen_root W | eInvalid | P> | <dump of M, format of ext_xg.rs dump_meta> | <dump of tree_of M> | <W|w><X|x>
+     (W: writer_meta_ok M, X: meta_xml_ok M - the hypotheses of the theorems of Proofs/XgRender.v, XgWf.v)
      The program must contain only commands that succeeded on the implementation (the check script
      removes the others).  Oracle tokens (everything the model does not compute):
         LV <s>                      the crate version (CARGO_PKG_VERSION)
@@ -14,6 +15,9 @@
                                     count, bounds (tokens of the read-back dump without the `cb:` key)
         IMO <o|-> <o|-> <o|-> <o|-> per finalized image, in order: offsets of the visual reference blob,
                                     its mask, the projection blob, its mask
+   XGSELF                           digest of gen_root on the example value of Spec/XgWriterOk.v: `<len> <sum>`
+                                    (proved inside Coq: Proofs/XgRender.v xg_example_digest) and whether the
+                                    two hypotheses of the theorems hold on it
    XGDISPLAY <decimal>...           display_i / display_u of the model as `=hex` (as IDISPLAY of the harness)
    XGESC <s>                        cdata_escape and url_escape of a string: `<hex> <hex>` *)
 open Conv
@@ -420,11 +424,21 @@ let run_metawm (toks : string list) : string =
     | Prelude.Ok bs -> hex_of_bytes bs
     | Prelude.Err k -> "e" ^ err_name k
     | Prelude.Panic -> "P" in
+  (* the last field: do the hypotheses of gen_is_render / tree_of_wf hold for this value
+     (W for the writer's value, X for the metadata)? *)
   g ^ " | " ^ dump_meta m ^ " | " ^ Drv_xmltree.dump_doc (MetaTree.tree_of m)
+  ^ " | " ^ (if XgWriterOk.writer_meta_ok m then "W" else "w") ^ (if XgWriterOk.meta_xml_ok m then "X" else "x")
 
 let run (kind : string) (toks : string list) : string option =
   match kind with
   | "METAWM" -> Some (run_metawm toks)
+  | "XGSELF" ->
+    Some (match XmlGen.gen_root XgWriterOk.xg_example with
+        | Prelude.Ok bs ->
+          let (l, h) = XgWriterOk.xg_digest bs in
+          Printf.sprintf "%s %s %b %b" (decimal_of_n l) (decimal_of_n h)
+            (XgWriterOk.writer_meta_ok XgWriterOk.xg_example) (XgWriterOk.meta_xml_ok XgWriterOk.xg_example)
+        | _ -> "error")
   | "XGDISPLAY" ->
     Some (Stdlib.String.concat " " (Stdlib.List.map (fun t ->
         if Stdlib.String.length t > 0 && t.[0] = '-' then hs (XmlGen.display_i (z_of_decimal t))
